@@ -21,7 +21,7 @@ ASSUMPTIONS = [
     "'tree left as it was' = every field, child order, object identity and the registry equal the pre-snapshot",
     "validity before/after is decided by the real validate.tree (judged separately by C01-C05)",
 ]
-REQUIRED = ["expansions", "references_expanded", "valid_before_and_after", "reference_followed_by_siblings", "fault_dangling", "fault_duplicate",
+REQUIRED = ["second_round_after_source_was_replaced", "second_round_after_source_was_removed", "expansions", "references_expanded", "valid_before_and_after", "reference_followed_by_siblings", "fault_dangling", "fault_duplicate",
             "source_after_reference_in_document_order", "source_before_reference_in_document_order", "copies_checked_for_aliasing"]
 EXHAUSTIVE = {"quick": False, "thorough": False}
 
@@ -133,9 +133,9 @@ def is_valid(t):
         return None
 
 
-def judge_ok(ctx, root, pairs, log):
+def judge_ok(ctx, root, pairs, log, wit=None):
     plain = snapshot.to_plain(root)
-    wit = {"tree": plain, "kind": "resolvable", "how": log}
+    wit = wit or {"tree": plain, "kind": "resolvable", "how": log}
     ids, dup = id_register(root)
     refs = [n for n in snapshot.walk(root) if n.name == "references"]
     if dup or any(r.content not in ids for r in refs) or \
@@ -249,9 +249,9 @@ def _same_bag(a, b):
     return bag(a) == bag(b)
 
 
-def judge_fault(ctx, root, kind, log):
+def judge_fault(ctx, root, kind, log, wit=None):
     plain = snapshot.to_plain(root)
-    wit = {"tree": plain, "kind": kind, "how": log}
+    wit = wit or {"tree": plain, "kind": kind, "how": log}
     snap = snapshot.Snap([root])
     store = snapshot.store_snap(Node)
     try:
@@ -272,6 +272,45 @@ def judge_fault(ctx, root, kind, log):
     ctx.distinct((repr(plain), kind))
 
 
+def second_round(ctx, root, variant, src_idx, wit):
+    """The same document object expanded again after an edit (an editor does this on every save): the referenced element was
+    replaced by another one carrying the same id, or was removed, and a new reference to that id was added.  Whatever expand kept
+    from the first round must not matter."""
+    sources = [n for n in snapshot.walk(root) if "id" in n.attributes and n.parent is not None and n in n.parent.children
+               and mrule.node_mappings.get(n.name) in rules_with_references()
+               and not any(x.name == "references" for x in snapshot.walk(n))]
+    # (the first round left copies of id-carrying descendants behind: only an id that occurs once can be made to dangle)
+    count = {}
+    for n in snapshot.walk(root):
+        if "id" in n.attributes:
+            count[n.attributes["id"]] = count.get(n.attributes["id"], 0) + 1
+    sources = [n for n in sources if count[n.attributes["id"]] == 1]
+    if not sources:
+        return False
+    src = sources[src_idx % len(sources)]
+    rid, parent = src.attributes["id"], src.parent
+    ref_el = Node(src.name)
+    ref_el.add_child(Node("references", content=rid))
+    if variant == "replaced-source":
+        new_src = src.copy()
+        for x in snapshot.walk(new_src):
+            if x.content and not x.children:
+                x.content = x.content + " v2"
+        new_src.add_child(Node("verifAddedInRound2", content="x"))
+        at = parent.children.index(src)
+        parent.replace_child(src, new_src)
+        parent.add_child(ref_el, at + 1)
+        ctx.count("second_round_after_source_was_replaced")
+        judge_ok(ctx, root, None, ["second round: referenced element replaced by another with the same id"], wit)
+    else:
+        parent.remove_child(src)
+        Node.delete_node_instance(src.id)
+        parent.add_child(ref_el)
+        ctx.count("second_round_after_source_was_removed")
+        judge_fault(ctx, root, "dangling", ["second round: referenced element removed, new reference to its id"], wit)
+    return True
+
+
 def one(ctx, gen, i):
     rng = ctx.rng
     root, pairs = build(rng, gen)
@@ -287,10 +326,19 @@ def one(ctx, gen, i):
         log.append("tails+default-namespace")
     mode = rng.random()
     if mode < 0.55:
+        first = snapshot.to_plain(root) if i % 3 == 0 else None
         judge_ok(ctx, root, pairs, log)
+        if first is not None and not any(n.name == "references" for n in snapshot.walk(root)):
+            variant, src_idx = rng.choice(["replaced-source", "removed-source"]), rng.randrange(50)
+            second_round(ctx, root, variant, src_idx, {"tree": first, "kind": "resolvable", "how": log, "second_round": [variant, src_idx]})
     elif mode < 0.8:
         j = rng.randrange(len(pairs))
-        pairs[j][0].find_child("references").content = rng.choice(["no-such-id", "", "SRC-1"])
+        real = pairs[j][1].attributes["id"]
+        # a value that names no id: absent, empty, or a near miss of a real one (padded, other case, cut short, extended)
+        taken = {n.attributes["id"] for n in treegen.all_nodes(root) if "id" in n.attributes}
+        pairs[j][0].find_child("references").content = rng.choice([v for v in ["no-such-id", "", "SRC-1", real + " ", " " + real, real + "\n",
+                                                                               "\n    " + real + "\n  ", real.upper(), real[:-1], real + "0"]
+                                                                   if v not in taken])
         judge_fault(ctx, root, "dangling", log + [f"dangling@{j}/{len(pairs)}"])
     else:
         nodes = [n for n in treegen.all_nodes(root) if "id" in n.attributes]
@@ -313,7 +361,13 @@ def run(ctx, params):
 
 def replay(ctx, witness):
     root = snapshot.from_plain(Node, witness["tree"])
-    if witness["kind"] == "resolvable":
+    if witness.get("second_round"):
+        try:
+            references.expand(root)
+        except Exception:
+            pass
+        second_round(ctx, root, witness["second_round"][0], witness["second_round"][1], witness)
+    elif witness["kind"] == "resolvable":
         judge_ok(ctx, root, None, witness.get("how", []))
     else:
         judge_fault(ctx, root, witness["kind"], witness.get("how", []))
